@@ -399,8 +399,8 @@ def shards(tier, seed=1):
     for grp in ("scalar", "vector"):
         out.append({"check": "gridfunction", "group": grp, "examples": 25 * n, "budget_s": 200 * n})
     variants = ["jit_real", "vectorized", "jit_complex", "nonjit", "jit_param", "nonjit_param", "vectorized_param"]
-    for variant in (rot(variants, seed, 3) if q else variants):
-        out.append({"check": "projection", "variant": variant, "examples": 10 * n, "budget_s": 240 * n})
+    for variant in variants:  # each variant is a different code path of GridFunction.__init__ / get_function_quadrature_information
+        out.append({"check": "projection", "variant": variant, "examples": (6 if q else 100), "budget_s": (120 if q else 2400)})
     for mode in ("component", "inner"):
         out.append({"check": "multiplication", "mode": mode, "examples": 15 * n, "budget_s": 200 * n})
     return out
